@@ -56,6 +56,13 @@ mod scalar {
     use ::glam_scalar as glam;
     include!("suite.rs");
 }
+/// scalar-math with `glam-assert`: the second pass for the scalar copies (a quarter of the volume)
+#[cfg(not(feature = "core"))]
+mod scalar_asserting {
+    pub const VARIANT: &str = "scalar+glam-assert";
+    use ::glam_scalar_assert as glam;
+    include!("suite.rs");
+}
 #[cfg(not(feature = "core"))]
 mod libmv {
     pub const VARIANT: &str = "libm";
@@ -87,6 +94,7 @@ fn main() {
         subs.extend(scalar::subs(&args));
         subs.extend(libmv::subs(&args));
         subs.extend(asserting::subs(&args));
+        subs.extend(scalar_asserting::subs(&args).into_iter().map(|s| s.with_div(4)));
     }
     #[cfg(feature = "core")]
     {
